@@ -147,6 +147,9 @@ func newPacketScanConfig(opts ...packetScanConfigOption) *packetScanConfig {
 func startPortScanEngine(ctx context.Context, conf *packetScanConfig) error {
 	// BPF filter doesn't accept large list of port ranges
 	chunkSize := 200
+	if len(conf.scanRange.Ports) == 0 {
+		return startPacketScanEngine(ctx, conf)
+	}
 	for i := 0; i < len(conf.scanRange.Ports); i += chunkSize {
 		end := i + chunkSize
 		if end > len(conf.scanRange.Ports) {
